@@ -50,6 +50,23 @@ const ERROR_ATTR: &str = "error";
 const TOKEN_ATTR: &str = "token";
 const REGEX_ATTR: &str = "regex";
 
+/// Tokens given as the value of an attribute argument and pasted into the output as they are:
+/// report them if they are not a `T`, and go on with `fallback` so that the output still parses.
+fn checked<T: syn::parse::Parse>(
+    tokens: TokenStream,
+    what: &str,
+    fallback: TokenStream,
+    parser: &mut Parser,
+) -> TokenStream {
+    match syn::parse2::<T>(tokens.clone()) {
+        Ok(_) => tokens,
+        Err(err) => {
+            parser.err(format!("Expected {what}: {err}"), tokens.span());
+            fallback
+        }
+    }
+}
+
 /// Generate a `Logos` implementation for the given enum, provided as a stream of Rust tokens.
 pub fn generate(input: TokenStream) -> TokenStream {
     debug!("Reading input token streams");
@@ -263,7 +280,16 @@ pub fn generate(input: TokenStream) -> TokenStream {
         ty: error_type,
         callback: error_callback,
     } = parser.error_type.take().unwrap_or_default();
-    let extras = parser.extras.take();
+    let error_type = checked::<syn::Type>(error_type, "an error type", quote!(()), &mut parser);
+    let extras = match parser.extras.take() {
+        util::MaybeVoid::Some(extras) => util::MaybeVoid::Some(checked::<syn::Type>(
+            extras,
+            "a type for the extras",
+            quote!(()),
+            &mut parser,
+        )),
+        util::MaybeVoid::Void => util::MaybeVoid::Void,
+    };
     let non_utf8_pats = pats
         .iter()
         .filter(|leaf| !leaf.pattern.hir().properties().is_utf8())
@@ -286,6 +312,12 @@ pub fn generate(input: TokenStream) -> TokenStream {
         .logos_path
         .take()
         .unwrap_or_else(|| parse_quote!(::logos));
+    let logos_path = checked::<syn::Path>(
+        logos_path,
+        "a path to the logos crate",
+        quote!(::logos),
+        &mut parser,
+    );
 
     let generics = parser.generics();
     let this = quote!(#name #generics);
